@@ -238,7 +238,8 @@ class Weaver:
                         ed.replace(p["span"][0], p["span"][1], f"{fresh}: {ty}", "R2")
                         pre_lets.append(f"let {pat} = {fresh};")
                     else:
-                        ed.replace(p["span"][0], p["span"][1], fresh, "R2")
+                        pty = (cs or {}).get("ptypes", [])
+                        ed.replace(p["span"][0], p["span"][1], fresh + (": " + pty[j] if j < len(pty) and pty[j] else ""), "R2")
                         pre_lets.append(f"let {ptxt} = {fresh};")
             if cs is not None and cs.get("cut"):
                 # R5: the closure text is cut out and replaced by a placeholder; a literal patch of the sidecar then redirects the
